@@ -7,6 +7,9 @@ condition of the statement), for the serial u64 and u32 backends (the chains are
  PMULT    every literal limb vector that is added before a `reduce` (sub, sub_assign, negate) is a multiple of p.
  RANGE    from_bytes yields limbs within their nominal width (so bit 255 of the input is dropped and the value is
           below 2^255); as_bytes yields byte 31 <= 127 (top bit clear) - interval abstract interpretation.
+ TRUNC    in the limb kernels and limb repacking code (serial u64/u32 field, AVX2 field; byte codecs excluded) every low-bit mask
+          `v & (2^k - 1)` applied to a value that can exceed the mask has its carry companion `v >> k` in the same function:
+          otherwise significant bits are silently discarded (interval analysis finds the droppable bits, a def-use rule the companion).
  NOWRAP   no u64/u128/u32 arithmetic in any field kernel can wrap: this is C11's obligation set (cited, not repeated).
 """
 import re
@@ -35,9 +38,9 @@ def weights(n):
 
 
 def run(tier, R):
-    cfgs = [("serial64", "release", "u64"), ("serial32", "release", "u32")]
+    cfgs = [("simd", "release", "u64"), ("serial32", "release", "u32")]
     if tier == "thorough":
-        cfgs += [("fiat64", "release", "u64"), ("fiat32", "release", "u32"), ("simd", "release", "u64")]
+        cfgs += [("fiat64", "release", "u64"), ("fiat32", "release", "u32"), ("serial64", "release", "u64")]
     FS = ctx.facts_for(R, [(c, m) for c, m, _ in cfgs])
     R.trust("rustc MIR; mirfacts; lib/eng_expchain.py transfer functions (mul adds exponents, square doubles, pow2k(k) multiplies by 2^k); lib/absint.py for RANGE")
     R.note("NOT decided: value-exactness of mul / square / pow2k / reduce / as_bytes / the vector (AVX2, IFMA) field; canonicity (< p) of encodings beyond the top bit")
@@ -51,6 +54,7 @@ def run(tier, R):
         if not cfg.startswith("fiat"):
             pmult(F, R, I)
             ranges(F, R, I, backend)
+            trunc(F, R, I, backend)
 
 
 # ------------------------------------------------------------------------------------------------------------ CHAIN
@@ -201,3 +205,81 @@ def ranges(F, R, I, backend):
         R.viol("C01.range", I("as_bytes"), "as_bytes can emit an encoding with the top bit set", F.loc(ab[0]))
     for f, why in D.errors:
         R.viol("C01.range", I("analysis"), "analysis did not complete: %s" % why, F.loc(f))
+
+
+# ------------------------------------------------------------------------------------------------------------ TRUNC
+SCOPE = re.compile(r"backend::(serial::(u64|u32)|vector::(avx2|ifma))::field::")
+CODEC = re.compile(r"::(from_bytes|as_bytes|to_bytes|load\d?|load8_at|split)\b")
+
+
+def canon(fv, o, depth=0):
+    """canonical identity of the value an operand reads: follows single-definition temporaries through copies and integer casts"""
+    if o[0] == "k":
+        return ("k", repr(o[1].get("v")))
+    pl = o[1]
+    if not pl[1] and depth < 8:
+        ds = [d for d in fv.defs.get(pl[0], []) if not d.via_mutref]
+        if len(ds) == 1 and ds[0].kind == "assign" and not fv.locals[pl[0]].get("name"):
+            rv = ds[0].rv
+            if rv[0] == "use" and rv[1][0] in ("c", "m", "k"):
+                return canon(fv, rv[1], depth + 1)
+            if rv[0] == "cast" and rv[2][0] in ("c", "m"):
+                return canon(fv, rv[2], depth + 1)
+    proj = []
+    for e in pl[1]:
+        if isinstance(e, list) and e[0] == "i":
+            ic = canon(fv, ["c", [e[1], []]], depth + 1)
+            proj.append(("i", ic))
+        else:
+            proj.append(repr(e))
+    return ("p", pl[0], tuple(proj))
+
+
+def const_of(fv, o, depth=0):
+    if o[0] == "k":
+        v = o[1].get("v")
+        return v if isinstance(v, int) else None
+    pl = o[1]
+    if not pl[1] and depth < 6:
+        ds = [d for d in fv.defs.get(pl[0], []) if not d.via_mutref]
+        if len(ds) == 1 and ds[0].kind == "assign":
+            rv = ds[0].rv
+            if rv[0] == "use":
+                return const_of(fv, rv[1], depth + 1)
+            if rv[0] == "cast":
+                return const_of(fv, rv[2], depth + 1)
+    return None
+
+
+def trunc(F, R, I, backend):
+    D = Driver(F, backend)
+    D.ip.trunc_log = {}
+    n_fn = 0
+    for f in sorted(F.fns.values(), key=lambda f: f["key"]):
+        if "mir" not in f or f["kind"] == "Closure" or not SCOPE.search(f["key"]) or CODEC.search(f["path"]) or re.search(r"fmt$|zeroize|ct_eq|conditional_", f["path"]):
+            continue
+        ov = {1: __import__("absint").I(1, 3)} if (f.get("name") == "pow2k") else None
+        before = len(D.roots_run)
+        D.run_root(f, ov, check_ret=False)
+        n_fn += len(D.roots_run) - before
+    R.floor("C01.trunc", I("limb kernels / repacking functions analysed"), n_fn, 12 if backend == "u32" else 20)
+    n = 0
+    for (fk, line, k), (oper, val) in sorted(D.ip.trunc_log.items(), key=lambda x: (x[0][0], x[0][2], x[0][1])):
+        f = F.fns.get(fk)
+        if f is None or not SCOPE.search(fk) or CODEC.search(f["path"]):
+            continue
+        fv = view(F, f)
+        want = canon(fv, oper)
+        found = False
+        for b in fv.blocks:
+            for s in b["s"]:
+                if s[0] == "=" and s[2][0] == "bin" and s[2][1] in ("Shr", "ShrUnchecked") and const_of(fv, s[2][3]) == k and canon(fv, s[2][2]) == want:
+                    found = True
+        n += 1
+        inst = I("%s:mask%d#%d" % (f["path"].replace("curve25519_dalek::backend::", "")[-70:], k, sum(1 for kk in D.ip.trunc_log if kk[0] == fk and kk[2] == k and kk[1] < line)))
+        if found:
+            R.ok("C01.trunc", inst, "the bits above the %d-bit mask are captured by `>> %d` of the same value" % (k, k))
+        else:
+            R.viol("C01.trunc", inst, "a %d-bit mask is applied to a value that can be as large as 2^%.2f and nothing in the function takes `>> %d` of that value: its high bits are silently discarded"
+                   % (k, __import__("math").log2(val[2] + 1), k), fv.loc(line))
+    R.floor("C01.trunc", I("masks that can drop bits"), n, 10 if backend == "u64" else 3)
